@@ -64,6 +64,7 @@ def pE : Nat → List String → Option (E × List String)
     let tl := (t.drop 1).toString
     let un (mk : E → E) := (pE f rest).map fun (e, r) => (mk e, r)
     match t.front with
+    | 'F' => some (.fval, rest)
     | 'C' => match tl with
       | "" => some (.col, rest)
       | "t" => un (.cast · .text)
@@ -141,6 +142,7 @@ def isPathJx : E → Bool
 /-- the finding regions (keys of KNOWN_FINDINGS.txt), decided on the source tree and the document -/
 def regions (doc : Env) : E → List String
   | .col => []
+  | .fval => []
   | .lit _ => []
   | .jx x _ => regions doc x
   | .jxs x _ => regions doc x
@@ -192,7 +194,9 @@ def parseEnvPair (s : String) : Option (List Char × Option Json) :=
 
 def evalReply (d : Env) (e : E) : String :=
       let spec := evalSpec d e
-      let impl := evalDuck d (pipeline e)
+      let impl := evalDuck d (pipelineAll e)
+      -- on trees without f.value the modelled sub-pipeline of the Ctx theorems must be the whole pipeline
+      if !e.hasFval && pipelineAll e != pipeline e then "model-inconsistent pipelineAll≠pipeline" else
       if spec == .unsup || impl == .unsup || innerBad d evalSpec e then "unsupported"
       else
         let rs := regions d e
@@ -208,7 +212,9 @@ def handle : List String → String
     | some d0, some e =>
       let d : Env := { doc := d0 }
       let spec := evalSpec d e
-      let impl := evalDuck d (pipeline e)
+      let impl := evalDuck d (pipelineAll e)
+      -- on trees without f.value the modelled sub-pipeline of the Ctx theorems must be the whole pipeline
+      if !e.hasFval && pipelineAll e != pipeline e then "model-inconsistent pipelineAll≠pipeline" else
       if spec == .unsup || impl == .unsup || innerBad d evalSpec e then "unsupported"
       else
         let rs := regions d e
@@ -240,8 +246,11 @@ def handle : List String → String
         | .ok rows => s!"spec=R{",".intercalate ((List.range rows.length).map fun i => s!"I{i}")}\timpl=Ebinder\tfinding=C11/flatten-index"
         | .error _ => "unsupported"
       else
-      let (spec, impl) := if mode == "text" then (flattenTextSpec v, flattenTextImpl v) else (flattenSpec v, flattenImpl v)
-      let key := match d with | .obj _ => "C11/flatten-object" | _ => "-"
+      let (spec, impl) := if mode == "text" then (flattenTextSpec v, flattenTextImpl v)
+                          else if mode == "outer" then (flattenOuterSpec v, flattenImpl v) else (flattenSpec v, flattenImpl v)
+      let key := match d with
+        | .obj _ => "C11/flatten-object"
+        | _ => if mode == "outer" && encRows spec != encRows impl then "C11/flatten-outer-ignored" else "-"
       s!"spec={encRows spec}\timpl={encRows impl}\tfinding={key}"
     | none => "bad-op"
   | ["split", str, sep] =>
